@@ -1287,6 +1287,7 @@ func stageF(path string) error {
 	sc := bufio.NewScanner(f)
 	sc.Buffer(make([]byte, 1<<20), 1<<24)
 	n := 0
+	var window []json.RawMessage
 	for sc.Scan() {
 		var b poolBeh
 		if err := json.Unmarshal(sc.Bytes(), &b); err != nil {
@@ -1299,12 +1300,18 @@ func stageF(path string) error {
 		if n == 7 || n == 5003 {
 			sum.Samples = append(sum.Samples, json.RawMessage(append([]byte{}, sc.Bytes()...)))
 		}
+		// the pool carries state from one behaviour to the next (a buffer returned twice stays there): a failure is
+		// recorded together with the behaviours that preceded it
+		window = append(window, json.RawMessage(append([]byte{}, sc.Bytes()...)))
+		if len(window) > 60 {
+			window = window[len(window)-60:]
+		}
 		bad, pan := runPool(b)
 		if pan != nil {
 			bad = fmt.Sprintf("panic: %v", pan)
 		}
 		if bad != "" {
-			fail("C20:lines-not-independent", bad, map[string]interface{}{"op": "pool", "b": json.RawMessage(append([]byte{}, sc.Bytes()...))})
+			fail("C20:lines-not-independent", bad, map[string]interface{}{"op": "pool", "bs": append([]json.RawMessage{}, window...)})
 		}
 	}
 	return sc.Err()
@@ -1473,20 +1480,23 @@ func runCase(js string) int {
 			fail(r.failKey, r.failWhat, nil)
 		}
 	case "pool":
-		raw, _ := json.Marshal(c["b"])
-		var b poolBeh
-		if err := json.Unmarshal(raw, &b); err != nil {
+		raw, _ := json.Marshal(c["bs"])
+		var bs []poolBeh
+		if err := json.Unmarshal(raw, &bs); err != nil {
 			fmt.Fprintln(os.Stderr, err)
 			return 2
 		}
+	attempts:
 		for attempt := 0; attempt < 3; attempt++ { // sync.Pool may be emptied by a collection: a few chances
-			bad, pan := runPool(b)
-			if pan != nil {
-				bad = fmt.Sprintf("panic: %v", pan)
-			}
-			if bad != "" {
-				fail("C20:lines-not-independent", bad, nil)
-				break
+			for _, b := range bs {
+				bad, pan := runPool(b)
+				if pan != nil {
+					bad = fmt.Sprintf("panic: %v", pan)
+				}
+				if bad != "" {
+					fail("C20:lines-not-independent", bad, nil)
+					break attempts
+				}
 			}
 		}
 	case "concurrent":
